@@ -714,8 +714,8 @@ template <class T>
 std::ostream&
 operator<< (std::ostream& s, const Shear6<T>& h)
 {
-    return s << '(' << h.xy << ' ' << h.xz << ' ' << h.yz << h.yx << ' ' << h.zx
-             << ' ' << h.zy << ')';
+    return s << '(' << h.xy << ' ' << h.xz << ' ' << h.yz << ' ' << h.yx << ' '
+             << h.zx << ' ' << h.zy << ')';
 }
 
 //-----------------------------------------
